@@ -278,3 +278,90 @@ func TestC17(t *testing.T) {
 		}
 	})
 }
+
+// TestC17Concurrent: the server calls one auth handler from a goroutine per listener / stream
+// connection, so the handler must give the same answers under concurrent use.
+func TestC17Concurrent(t *testing.T) {
+	r := vkit.Start(t, "C17")
+	defer r.Finish()
+	if r.Replay != "" {
+		fmt.Println("REPLAY-NOT-MINE: the concurrent stage has no replayable case")
+
+		return
+	}
+	log := sim.NewLogger(0).NewLogger("c17")
+	for _, kind := range []string{"plain", "rest"} {
+		secret := fmt.Sprintf("secret-%d-%s", r.Seed, kind)
+		var handler turn.AuthHandler
+		if kind == "rest" {
+			handler = turn.LongTermTURNRESTAuthHandler(secret, log)
+		} else {
+			handler = turn.NewLongTermAuthHandler(secret, log)
+		}
+		type cred struct {
+			user, realm string
+			key         []byte
+		}
+		var creds []cred
+		for i := 0; i < 64; i++ {
+			var u, p string
+			if kind == "rest" {
+				u, p, _ = turn.GenerateLongTermTURNRESTCredentials(secret, fmt.Sprintf("user%d", i), time.Duration(i+1)*time.Hour)
+			} else {
+				u, p, _ = turn.GenerateLongTermCredentials(secret, time.Duration(i+1)*time.Hour)
+			}
+			if p != refPassword(secret, u) {
+				r.Violate("password", "generated password differs from HMAC-SHA1(secret, username)", map[string]any{"kind": kind, "user": u})
+
+				return
+			}
+			realm := fmt.Sprintf("realm%d", i%3)
+			creds = append(creds, cred{u, realm, ref.LongTermKey(u, realm, p)})
+		}
+		const workers = 12
+		iters := 4000
+		if r.Thorough() {
+			iters = 60000
+		}
+		errs := make(chan string, workers)
+		done := make(chan struct{})
+		for w := 0; w < workers; w++ {
+			go func(w int) {
+				defer func() {
+					if p := recover(); p != nil {
+						errs <- fmt.Sprintf("panic in the auth handler under concurrent use: %v", p)
+					}
+					done <- struct{}{}
+				}()
+				for i := 0; i < iters; i++ {
+					c := creds[(i*7+w*13)%len(creds)]
+					_, key, ok := handler(&turn.RequestAttributes{Username: c.user, Realm: c.realm})
+					if !ok || !bytes.Equal(key, c.key) {
+						errs <- fmt.Sprintf("%s handler under concurrent use: authentic unexpired credential %q answered ok=%v key=%x, expected key %x", kind, c.user, ok, key, c.key)
+
+						return
+					}
+				}
+			}(w)
+		}
+		for w := 0; w < workers; w++ {
+			<-done
+		}
+		r.Eval(workers * iters)
+		r.LabelN("concurrent-authentications:"+kind, workers*iters)
+		r.NonTrivial(vkit.Hash64("concurrent", kind, r.Seed))
+		r.NonTrivial(vkit.Hash64("concurrent2", kind, r.Seed))
+		r.Sample("concurrent", func() any {
+			return map[string]any{"handler": kind, "goroutines": workers, "calls_per_goroutine": iters, "distinct_credentials": len(creds)}
+		})
+		select {
+		case e := <-errs:
+			if !r.IsKnown("C17.concurrent-use") {
+				r.Violate("concurrent-use", e, map[string]any{"kind": kind, "workers": workers, "note": "schedule-dependent: re-run the stage"})
+			}
+
+			return
+		default:
+		}
+	}
+}
